@@ -127,11 +127,14 @@ def close(a, b, rel=1e-10):
     return a == b or abs(a - b) <= 1e-13 + rel * max(abs(a), abs(b))
 
 
-def make_panel_db(rows, log):
+def make_panel_db(rows, log, index_mode=0):
     import numpy as np
     from vf.engine import make_db
 
     db = make_db(rows, COLS)
+    if index_mode:
+        # row labels that are neither 0..n-1 nor sorted (as left by earlier filtering / concatenation of the user's frame)
+        db.data.index = [(7 * i + 3) % 23 for i in range(len(rows))]
 
     def gen_a(n, r_):
         log.append(('DET_A', n, r_))
@@ -152,6 +155,9 @@ def run_task(task):
 
     rec = Rec()
     comp, ids, tier = task['comp'], task['ids'], task['tier']
+    _edit_history(task, rec)
+    if rec.retire:
+        return rec.result()
     rows0 = base_rows(comp, ids)
     n = len(rows0)
     nind = len(comp)
@@ -175,7 +181,7 @@ def run_task(task):
             rec.violation(f'C09|{clause}|{kw.pop("where", "panel")}', what + f' [comp={comp} ids={ids} perm={perm}]', dict(case, **kw))
 
         log = []
-        db = make_panel_db(rows, log)
+        db = make_panel_db(rows, log, index_mode=sum(perm[:2]) % 2)
         if not contiguous(idseq):
             try:
                 db.panel('id')
@@ -270,7 +276,65 @@ def run_task(task):
     return rec.result()
 
 
+def _edit_history(task, rec):
+    """History [declare panel, evaluate, edit database.data directly (drop the rows of one individual / append a new
+    individual), evaluate]: the map of individuals is rebuilt before each evaluation, so the values, the sample size and
+    the draws must be those of the table as it is now."""
+    import pandas as pd
+    comp, ids = task['comp'], task['ids']
+    rows0 = base_rows(comp, ids)
+    spec = {nm: (v, None, None, 0) for nm, v in PARAMS[0].items()}
+    p = PARAMS[1]
+    Rn = 2
+    extra_id = float(max(ids) + 5)
+    extra = [dict(x1=0.375, x2=-0.625, c2=1.0, id=extra_id), dict(x1=1.125, x2=0.25, c2=2.0, id=extra_id)]
+    for edit in ('drop-first-individual', 'drop-last-individual', 'append-individual'):
+        if edit.startswith('drop') and len(comp) < 2:
+            continue
+        log = []
+        db = make_panel_db(rows0, log)
+        db.panel('id')
+        sorted_ids = sorted(set(r['id'] for r in rows0))
+        if edit == 'drop-first-individual':
+            rows1 = [r for r in rows0 if r['id'] != sorted_ids[0]]
+        elif edit == 'drop-last-individual':
+            rows1 = [r for r in rows0 if r['id'] != sorted_ids[-1]]
+        else:
+            rows1 = rows0 + extra
+        # the edited table is kept sorted by individual, as the library leaves it after panel() (the calculator hands the
+        # table to the engine before it re-sorts it, so an unsorted replacement table is outside what is explored here)
+        rows1 = sorted(rows1, key=lambda r: r['id'])
+        for fname in ('traj_exp', 'mc_traj', 'mc_two_draws'):
+            formula = FORMULAS[fname]
+            case = dict(part='edit', comp=comp, ids=ids, tier=task['tier'], edit=edit, formula=fname)
+            try:
+                expr = R.Builder(spec).build(formula)
+                expr.get_value_c(database=db, betas=dict(p), number_of_draws=Rn, prepare_ids=True)   # establishes the map
+                db.data = pd.DataFrame({c: [r[c] for r in rows1] for c in COLS})
+                got = [float(v) for v in R.Builder(spec).build(formula).get_value_c(database=db, betas=dict(p), number_of_draws=Rn,
+                                                                                     prepare_ids=True)]
+                order = [float(i) for i in db.individualMap.index]
+                ssize = db.get_sample_size()
+            except Exception as e:
+                rec.case(('edit', tuple(comp), tuple(ids), edit, fname), ('raised', type(e).__name__), outcome='raised')
+                rec.violation(f'C09|evaluation-after-table-edit-raised-{type(e).__name__}|{edit}',
+                              f'{fname} after {edit} on comp={comp} ids={ids}: {str(e)[:200]}', case)
+                rec.retire = True
+                return
+            want = reference(formula, rows1, p, Rn)
+            rec.case(('edit', tuple(comp), tuple(ids), edit, fname), (comp, ids, edit, fname, [round(v, 10) for v in got]), outcome=('edit', edit))
+            if ssize != len(want) or len(got) != len(want) or sorted(order) != sorted(want) or \
+                    any(not close(g, want[i]) for g, i in zip(got, order)):
+                rec.violation(f'C09|stale-individual-map-after-table-edit|{edit}',
+                              f'{fname} after {edit} on comp={comp} ids={ids}: values {dict(zip(order, got))} (sample size {ssize}), '
+                              f'expected {want}', case, expected=want, observed=got)
+
+
 def replay(case):
+    if case.get('part') == 'edit':
+        rec = Rec()
+        _edit_history(case, rec)
+        return rec.violations
     full = run_task(dict(comp=case['comp'], ids=case['ids'], tier=case['tier']))
     vs = [v for v in full['violations'] if v['case'].get('perm') == case.get('perm')]
     return vs or full['violations']
